@@ -402,6 +402,21 @@ def scenario_custom_keywords_roundtrip(exe, workroot):
     return False, 'custom keywords round-trip'
 
 
+def scenario_string_value_roundtrip(exe, workroot):
+    """C15: string option values holding backslashes / quotes survive --update-config + reload"""
+    d = _tmp(workroot)
+    cfg = _cfg(d, 'include_category_0 = "a\\\\.h"\ninclude_category_1 = "b\\"c"\n')
+    rc, out, err = run(exe, ['-c', cfg, '--update-config'])
+    cfg2 = _cfg(d, out.decode(errors='replace'), 'c2.cfg')
+    rc2, out2, err2 = run(exe, ['-c', cfg2, '--update-config'])
+
+    def lines(o):
+        return [l for l in o.decode(errors='replace').splitlines() if l.startswith('include_category_0') or l.startswith('include_category_1')]
+    if lines(out) != lines(out2):
+        return True, 'string values change when the written config is loaded again: %r -> %r' % (lines(out), lines(out2))
+    return False, 'string values with backslash / quote round-trip'
+
+
 def scenario_lang_leak(exe, workroot):
     d = _tmp(workroot)
     a, b = os.path.join(d, 'A.c'), os.path.join(d, 'B.c')
